@@ -1,4 +1,4 @@
-(* requires: Agg Bucket Order *)
+(* requires: BucketTz Agg Bucket Order *)
 open Conv
 
 let parse_value = P_order.parse_value
@@ -86,6 +86,10 @@ let run (t : string list) : string =
             | None -> "PANIC"
             | Some c ->
                 Printf.sprintf "C %s U %s N %s" (string_of_z c) (string_of_z c) (string_of_z (Bucket.naive_bucket_of (z_of_string ts) gr))))
+  | ["agg_buckettz"; g; ws; ts; _tz; off] ->
+      (match gran g with
+       | None -> "BADGRAN"
+       | Some gr -> "B " ^ string_of_z (BucketTz.calendar_bucket_secs_off (z_of_string ws) (z_of_string off) (z_of_string ts) gr))
   | _ -> "UNKNOWN_PROBE"
 
 let init () = Registry.register "agg_" run
